@@ -326,7 +326,9 @@ class ForceMatrix:
         except (ValueError, np.linalg.LinAlgError, TypeError) as e:
             warnings.warn(f"Numerically solving due to the following error: {e}")
             _verif_path = _verif_path + "->nnls-fallback"
-            xres, _ = scop.nnls(mprime, b, maxiter=kwargs.get("nnls_max_iter"))
+            # scipy's default of 3 * (number of unknowns) iterations is not enough for rank-deficient systems:
+            # nnls then raises RuntimeError although it converges a little later
+            xres, _ = scop.nnls(mprime, b, maxiter=kwargs.get("nnls_max_iter", 30 * mprime.shape[1]))
 
         if kwargs.get("verbose", False):
             print("Residuals ||AX - B||: ", np.linalg.norm(mprime @ xres - b))
